@@ -131,6 +131,10 @@ const PROBES: &[&str] = &[
     "far_out_of_bounds_point",
     "point_on_last_row_or_column",
     "continued_on_clone",
+    "assert_eq_passed",
+    "assert_eq_panicked",
+    "assert_pattern_passed",
+    "assert_pattern_panicked",
 ];
 
 const FAULTS: &[&str] = &["oob_request", "overdraw_request", "expected_panic"];
@@ -620,6 +624,31 @@ fn run_typed<C: SimColor + ColorMapping>(sc: &Scenario, opts: &Opts) -> RunOut {
                             if all_agree {
                                 out.probes |= probe("diff_empty_equal");
                             }
+                            // the judge functions tests actually call: assert_eq / assert_eq_with_message
+                            // must panic exactly when the cells differ (alternating by step index, no tape draw)
+                            if viol.is_none() {
+                                let with_msg = si % 2 == 1;
+                                let pr = guarded(|| {
+                                    if with_msg {
+                                        display.assert_eq_with_message(&other, |f| write!(f, "egsim"))
+                                    } else {
+                                        display.assert_eq(&other)
+                                    }
+                                });
+                                out.probes |= probe(if pr.is_ok() { "assert_eq_passed" } else { "assert_eq_panicked" });
+                                if pr.is_ok() != all_agree {
+                                    viol = Some(mk(
+                                        si,
+                                        "assert_mismatch",
+                                        format!(
+                                            "{} {} although the cells {}",
+                                            if with_msg { "assert_eq_with_message" } else { "assert_eq" },
+                                            if pr.is_ok() { "returned" } else { "panicked" },
+                                            if all_agree { "all agree" } else { "differ" }
+                                        ),
+                                    ));
+                                }
+                            }
                         }
                     }
                 }
@@ -669,6 +698,46 @@ fn run_typed<C: SimColor + ColorMapping>(sc: &Scenario, opts: &Opts) -> RunOut {
                                                 "round_trip",
                                                 format!("from_pattern(Debug output) has {:?} at ({},{}), the display has {:?}", got, x, y, want),
                                             ));
+                                        }
+                                    }
+                                }
+                                // assert_pattern: silent on the display's own rendering, panics on a
+                                // rendering with one cell changed (first touched cell gets another
+                                // character; an empty display gets a character at (0,0))
+                                if viol.is_none() && !alpha.is_empty() {
+                                    let own: Vec<String> = rows.iter().map(|r| r.to_string()).collect();
+                                    let with_msg = si % 2 == 1;
+                                    let check = |pat: &Vec<String>| {
+                                        let refs: Vec<&str> = pat.iter().map(|s| s.as_str()).collect();
+                                        guarded(|| {
+                                            if with_msg {
+                                                display.assert_pattern_with_message(&refs, |f| write!(f, "egsim"))
+                                            } else {
+                                                display.assert_pattern(&refs)
+                                            }
+                                        })
+                                    };
+                                    if let Err(e) = check(&own) {
+                                        let _ = e;
+                                        viol = Some(mk(si, "assert_mismatch", "assert_pattern panicked on the rows of the display's own Debug output".to_string()));
+                                    } else {
+                                        out.probes |= probe("assert_pattern_passed");
+                                        let mut changed = own.clone();
+                                        match model.cells.iter().position(|c| c.is_some()) {
+                                            Some(i) => {
+                                                let (x, y) = (i % N, i / N);
+                                                let cur = char_of(model.cells[i].unwrap());
+                                                let other_ch = alpha.iter().map(|(ch, _)| *ch).find(|ch| *ch != cur).unwrap_or(' ');
+                                                let mut row: Vec<char> = changed[y].chars().collect();
+                                                row[x] = other_ch;
+                                                changed[y] = row.into_iter().collect();
+                                            }
+                                            None => changed = vec![alpha[0].0.to_string()],
+                                        }
+                                        if check(&changed).is_ok() {
+                                            viol = Some(mk(si, "assert_mismatch", "assert_pattern accepted a pattern that differs from the display in one cell".to_string()));
+                                        } else {
+                                            out.probes |= probe("assert_pattern_panicked");
                                         }
                                     }
                                 }
